@@ -217,6 +217,8 @@ def gen_ordered(rng, family):
 
 
 def util_value(u, cols, r):
+    if u['k'] == 'sum':
+        return util_value(u['of'], cols, r) + float(u['c'])
     if u['k'] == 'num':
         return float(u['c'])
     if u['k'] == 'beta':
@@ -296,6 +298,9 @@ def mk_database(case):
 def mk_util(u, shift=0.0):
     from biogeme.expressions import Beta, Variable
 
+    if u['k'] == 'sum':
+        e = mk_util(u['of']) + float(u['c'])
+        return e + shift if shift else e
     if u['k'] == 'num':
         return float(u['c']) + shift if shift else float(u['c'])
     if u['k'] == 'beta':
@@ -793,6 +798,53 @@ def check_malformed(ctx, res, case):
     ctx.batch.add_many(model_requests(case)[:1], cb)
 
 
+# --------------------------------------------------------------------------- accepted oddities
+
+
+def gen_odd(rng):
+    """specifications the code accepts although they are unusual: an alternative listed twice in
+    one nest (check_partition only compares different nests), availability values other than 0/1
+    (non-zero = available; the cross-nested code *multiplies* by the value).  The model must say the
+    same, and the result must still be a distribution."""
+    kind = rng.choice(['dup_in_nest', 'av_value', 'av_value'])
+    if kind == 'dup_in_nest':
+        case = gen_case(rng, rng.choice(['nested', 'nestedmu']), k=rng.randint(3, 6))
+        m = rng.choice(case['nests']['list'])
+        m['alts'].append(m['alts'][0])
+    else:
+        case = gen_case(rng, rng.choice(['logit', 'nested', 'nestedmu', 'cnl', 'cnlmu']), k=rng.randint(2, 5))
+        case['av'] = [{'k': 'num', 'v': rng.choice([0, 1, 2, 3])} for _ in case['alts']]
+        if all(a['v'] == 0 for a in case['av']):
+            case['av'][0]['v'] = 2
+    case['odd'] = kind
+    return case
+
+
+def check_odd(ctx, res, case):
+    fam = case['family']
+    res.tally(f"odd={case['odd']}")
+    res.count(case, nontrivial=True)
+    rp = real_values(case)
+    rl = real_values(case, log=True)
+    if 'err' in rp or 'err' in rl:
+        got = rp.get('err') or rl.get('err')
+
+        def cb_err(ans, case=case, got=got):
+            if ans[0].get('error') != got:
+                res.diverge(f'{fam}: outcome of an unusual specification ({case["odd"]})', case, ans[0], got, where=where_of(case))
+
+        ctx.batch.add_many(model_requests(case)[:1], cb_err)
+        return
+    p, lp = rp['ok'], rl['ok']
+    for what, obs, exp in oracle_distribution(case, p):
+        res.violate(f'{fam}: {what}', case, {'observed': obs, 'p': fmt(p)}, exp, where=where_of(case))
+
+    def cb(ans, case=case, p=p, lp=lp):
+        compare_model(res, case, ans, p, lp)
+
+    ctx.batch.add_many(model_requests(case), cb)
+
+
 # --------------------------------------------------------------------------- python evaluation path
 
 
@@ -882,17 +934,19 @@ def check(ctx) -> Result:
             res.tally('corpus')
         check_python_path(ctx, res, CORPUS_FINDINGS[0])
         check_ordered(ctx, res, CORPUS_FINDINGS[1])
-        n = ctx.n(60, 2200)
+        n = ctx.n(60, 850)
         for _ in range(n):
             for fam in FAMILIES:
                 case = gen_case(rng, fam)
                 check_config(ctx, res, case, shift_c=rng.choice([dyadic(rng, -4, 4), 1.5, -2.25]))
             if len(res.violations) > 20:
                 break
-        for _ in range(ctx.n(40, 1200)):
+        for _ in range(ctx.n(40, 1500)):
             check_ordered(ctx, res, gen_ordered(rng, rng.choice(ORDERED)))
         for _ in range(ctx.n(24, 400)):
             check_malformed(ctx, res, gen_malformed(rng, rng.choice(['nested', 'nestedmu', 'cnl', 'cnlmu'])))
+        for _ in range(ctx.n(20, 400)):
+            check_odd(ctx, res, gen_odd(rng))
         for _ in range(ctx.n(10, 200)):
             case = gen_python_path(rng)
             # the shape of finding F-C05-1 (unavailable chosen alternative on the Python path) is kept out of
@@ -930,7 +984,7 @@ def search(ctx, res, broken):
             c = d.get('case')
             if isinstance(c, dict) and c.get('family') in FAMILIES and 'malformed' not in c:
                 check_config(ctx, r2, c, shift_c=1.5, with_model=False)
-        for i in range(400):
+        for i in range(60):
             if r2.violations:
                 break
             for fam in FAMILIES:
